@@ -92,7 +92,7 @@ def fmt_queries(tier):
             ex = list(FMT_KF)
             qs.append(Query('fmt/pad/p%d/mode%d/n%d' % (prec, mode, n), 'C10_fmt.cpp', 'h_fixed',
                             kf({'NDIG': n, 'MODE': mode, 'FIXED': 1, 'CHAR': 'char', 'PMIN': prec, 'PMAX': prec, 'CAPX': 72}, ex), bounds=b, cflags=PRIV, kf_excl=ex,
-                            timeout=300, mem_gb=8))
+                            timeout=600, mem_gb=8))
     DEF_KF = ('C10-default-prec0', 'C10-trim-integer-zeros', 'C10-default-sticky-lost')
     for mode in (0, 1, 2):
         for n in range(1, NMAX + 1):
